@@ -74,6 +74,12 @@ func (h *Engine) Configure(serverConfig core.ServerConfig) error {
 	// - /metrics
 	// All other paths are bound to the public interface.
 
+	// The internal endpoints must never be served by the public interface. MultiEcho re-uses the HTTP server of an
+	// address that is already bound, so equal addresses would put all routes on a single (public) listener.
+	if h.config.Internal.Address == h.config.Public.Address {
+		return fmt.Errorf("http.internal.address and http.public.address must differ (both are '%s')", h.config.Public.Address)
+	}
+
 	h.server = NewMultiEcho()
 	// Public endpoints
 	if err := h.server.Bind(RootPath, h.config.Public.Address, h.createEchoServer, h.config.ClientIPHeaderName); err != nil {
